@@ -63,6 +63,12 @@ func executeCompaction(db *DB) (compactionMetadata *proto.CompactionMetadata, er
 		return nil, nil
 	}
 
+	// all selected tables can be empty (e.g. a table that resulted from compacting nothing but tombstones),
+	// the bloom filter of the writer requires at least one expected element though.
+	if numRecords == 0 {
+		numRecords = 1
+	}
+
 	// make sure we're always compacting with the right order in mind
 	sort.Strings(paths)
 
